@@ -261,7 +261,7 @@ def main_check(pid, tier, seed, nruns=None, time_budget=None, workers=16):
         bysig = {}
         for r in new:
             bysig.setdefault(r.get("sig"), []).append(r)
-        reps = [rs[0] for rs in bysig.values()][:8]
+        reps = [rs[0] for rs in bysig.values()][:4]
         ctx = multiprocessing.get_context("fork")
         with cf.ProcessPoolExecutor(max_workers=min(8, len(reps)), mp_context=ctx,
                                     initializer=_worker_init) as ex:
